@@ -636,6 +636,53 @@ def o_linear(ctx):
     return oracle("linear-match-calls", items, check, describe=lambda it: list(it))
 
 
+def o_no_hang(ctx):
+    """C01 "nothing hangs", the part outside the model: the regular expressions and string scans the matcher runs on
+    one line take time polynomial in the line -- long runs of one character class followed by a stray character
+    (the shape that makes an ambiguous pattern backtrack) are parsed in a child process under a time limit"""
+    import subprocess
+    import sys as _sys
+    from common import PYDIR
+    ns = (40, 400, 4000) if S.n_for(0, 1) == 0 else (40, 400, 4000, 40000)
+    runs = ["a", "Z", "ab-", "a_", "-", "_", " ", "\t", "\xa0", "#", "@", "|", "\\", "\\n", "<", ">", ":", "*", '"', "`", "é"]
+    srcs = []
+    for n in ns:
+        for r_ in runs:
+            body = r_ * n
+            srcs.append("# language: " + body + " 1\nFeature: f\n")
+            srcs.append("#language:" + body + "\nFeature: f\n")
+            srcs.append("Feature: f\n  @t" + body + " #c\n  Scenario: s\n    Given g\n      | " + body + " |\n      |" + body + "x|\n")
+            srcs.append("Feature: f\n  " + body + "x\n  Scenario: s " + body + "\n    Given " + body + "\n      \"\"\"" + body + "\n      " + body + "\n      \"\"\"\n")
+            srcs.append("Feature: f\n  Scenario Outline: <" + body + ">\n    Given <" + body + ">\n    Examples:\n      | " + body + " |\n      | v |\n")
+    script = ("import sys, json\nsys.path.insert(0, %r)\nfrom gherkin.stream.gherkin_events import GherkinEvents\n"
+              "docs = json.load(sys.stdin)\n"
+              "for i, d in enumerate(docs):\n"
+              "    print(i, flush=True)\n"
+              "    ge = GherkinEvents(GherkinEvents.Options(print_source=False, print_ast=True, print_pickles=True))\n"
+              "    list(ge.enum({'source': {'uri': 'u', 'data': d, 'mediaType': 'text/x.cucumber.gherkin+plain'}}))\n"
+              "print('done', flush=True)\n") % PYDIR
+    limit = 60 + 0.02 * len(srcs)
+    c = Corr("no-hang")
+    c.exhaustive = False
+    try:
+        p = subprocess.run([_sys.executable, "-c", script], input=json.dumps(srcs), capture_output=True, text=True, timeout=limit)
+        out = p.stdout.split()
+        hung = None if (out and out[-1] == "done") else (int(out[-1]) if out and out[-1].isdigit() else 0)
+        err = p.stderr[-300:] if hung is not None else ""
+    except subprocess.TimeoutExpired as e:
+        out = (e.stdout.decode() if isinstance(e.stdout, bytes) else (e.stdout or "")).split()
+        hung = int(out[-1]) if out and out[-1].isdigit() else 0
+        err = "no result within %d s" % limit
+    c.evaluations = len(srcs)
+    c.nontrivial = set(srcs if hung is None else srcs[:hung])
+    c.count("adversarial-lines", len(srcs))
+    c.samples = [{"input": srcs[0][:120]}]
+    if hung is not None:
+        c.disagreements.append({"what": "parsing this %d-character document did not finish (%s)" % (len(srcs[hung]), err),
+                                "input": srcs[hung][:300] + ("..." if len(srcs[hung]) > 300 else ""), "length": len(srcs[hung])})
+    return c
+
+
 def slice_checks(src, doc):
     """C04: read the source at every reported AST location"""
     lines = src.split("\n")
